@@ -18,6 +18,8 @@ type loopCtx struct {
 	breaks    []*State
 	continues []*State
 	isSwitch  bool
+	spec      *LoopSpec // contract clauses of this loop (break hints), when it is cut at invariants
+	ord       int
 }
 
 // Frame is one (verified or inlined) function activation.
